@@ -172,6 +172,8 @@ def main(argv=None):
             p = by_id[o["id"]]
             p["vcs"] += o["vcs"]
             p["seconds"] += o["seconds"]
+            if o.get("failing"):          # bounded obligations split over several jobs: union of the failing instances
+                p["failing"] = list(p.get("failing") or []) + list(o["failing"])
             order = {"refuted": 3, "unknown": 2, "proved": 1}
             if order[o["status"]] > order[p["status"]]:
                 p.update(status=o["status"], witness=o.get("witness"), reason=o.get("reason"))
@@ -201,9 +203,13 @@ def main(argv=None):
     known_lines = []
     discharged = 0
     under_exclusion = 0
+    bounded_ok = 0
     for o in obligations:
         if o["status"] == "proved":
-            discharged += 1
+            if o.get("bounded"):
+                bounded_ok += 1      # BOUNDED stand-in (DESIGN 2.8): checked, listed, never counted as proved
+            else:
+                discharged += 1
             continue
         if o["status"] == "unknown":
             if getattr(pack, "REPLAY_UNKNOWN", False):
@@ -267,8 +273,9 @@ def main(argv=None):
     evidence = {
         "property_id": prop, "tier": tier, "seed": seed, "level": "proof",
         "coverage": {
-            "obligations": len(obligations) - under_exclusion,
+            "obligations": len(obligations) - under_exclusion - len([o for o in obligations if o.get("bounded") and o["id"] not in covered]),
             "discharged": discharged,
+            "bounded_checked_not_counted": bounded_ok,
             "obligations_failing_as_recorded_known_findings": under_exclusion,
             "obligations_generated_total": len(obligations),
             "checker_cmd": f"./check {prop} --tier {tier}",
@@ -285,7 +292,7 @@ def main(argv=None):
             "engine_errors": engine_errors,
             "missing_vs_lock": really_missing,
             "known_findings": [r for r in kf_results],
-            "bounded": getattr(pack, "BOUNDED", []),
+            "bounded": list(getattr(pack, "BOUNDED", [])) + [{"id": o["id"], "status": o["status"], "instances": o["vcs"]} for o in obligations if o.get("bounded")],
             "obligation_list": [{"id": o["id"], "status": o["status"], "vcs": o["vcs"]} for o in obligations],
             "dropped_by_extraction": ["docstrings", "type annotations (sort hints only)", "logger.* statements (PY-LOG)",
                                       "del statements"],
@@ -308,7 +315,7 @@ def main(argv=None):
         print(f"ENGINE-ERROR property={prop} {e}")
     for m in really_missing:
         print(f"MISSING-OBLIGATION property={prop} {m} (locked but not generated: vacuity guard)")
-    print(f"{prop}: obligations={len(obligations)} discharged={discharged} under-exclusion={under_exclusion} "
+    print(f"{prop}: obligations={len(obligations)} discharged={discharged} bounded-ok={bounded_ok} under-exclusion={under_exclusion} "
           f"refuted-new={len(new_violations)} undecided={len(undecided)} functions={len(fn_infos)} "
           f"solver={solver_seconds}s wall={wall:.1f}s exit={exit_code}")
     return exit_code
